@@ -24,18 +24,29 @@ PROP = "C07"
 LEVEL = "proof"
 
 # ------------------------------------------------------------------ object graph
-# types: "int", "In", "P", "A3" (int[3]), "PS" (P[2]), pointers "*P" "*In" "*int"
+# types: "int", "str" (string holding decimal digits), "dbl" (double z.5), "In", "P", "Q" (flat struct with members of
+# three scalar kinds: the write-back code copies .value / .str_value / .double_value separately), "A3" (int[3]),
+# "PS" (P[2]), pointers "*P" "*In" "*Q" "*int"
 STRUCTS = {"In": [("v", "int"), ("w", "int")],
-           "P": [("s", "int"), ("inner", "In"), ("arr", "A3")]}
+           "P": [("s", "int"), ("inner", "In"), ("arr", "A3")],
+           "Q": [("n", "int"), ("t", "str"), ("d", "dbl")]}
+SCALARS = ("int", "str", "dbl")
 ARRAYS = {"A3": ("int", 3), "PS": ("P", 2), "ES": ("In", 2)}
 # variables of the graph, in location order (location index = position)
 VARS = [("a", "P"), ("b", "P"), ("ps", "PS"), ("e", "In"), ("f", "In"), ("es", "ES"), ("g", "A3"), ("h", "A3"),
-        ("n", "int"), ("m", "int"), ("pp", "*P"), ("pin", "*In"), ("pi", "*int")]
+        ("n", "int"), ("m", "int"), ("pp", "*P"), ("pin", "*In"), ("pi", "*int"),
+        ("u", "Q"), ("x", "Q"), ("pq", "*Q")]
 NV = len(VARS)
 
 
 def cb_type(t):
-    return {"A3": "int[3]", "PS": "P[2]", "ES": "In[2]", "*P": "P*", "*In": "In*", "*int": "int*"}.get(t, t)
+    return {"A3": "int[3]", "PS": "P[2]", "ES": "In[2]", "*P": "P*", "*In": "In*", "*int": "int*", "*Q": "Q*",
+            "str": "string", "dbl": "double"}.get(t, t)
+
+
+def lit(ty, z):
+    """Cb literal of the scalar value z at a cell of type ty"""
+    return {"str": '"%d"' % z, "dbl": "%d.5" % z}.get(ty, "%d" % z)
 
 
 def children(t):
@@ -364,7 +375,7 @@ class Gen:
             for loc, t in self.locals.items():
                 add(t, ("v", loc))
         # pointer dereferences (only valid, non-null pointers)
-        for t in ("*P", "*In", "*int"):
+        for t in ("*P", "*In", "*int", "*Q"):
             for pa in list(roots.get(t, [])):
                 try:
                     v = sh.read(sh.resolve(pa, fr))
@@ -373,7 +384,7 @@ class Gen:
                 if isinstance(v, tuple):
                     add(t[1:], ("d", pa))
         # close under member selection: PS -> P -> In/A3 -> int
-        for t in ("PS", "ES", "P", "In", "A3"):
+        for t in ("PS", "ES", "P", "In", "A3", "Q"):
             for a in list(roots.get(t, [])):
                 for k, (_, ct) in enumerate(children(t)):
                     add(ct, ("f", a, k))
@@ -413,12 +424,12 @@ class Gen:
         r = self.rng
         kind = r.choice(kinds)
         if kind == "w":
-            p = self.pick("w", "int", env, fr, pmodes, in_callee, ctx)
+            p = self.pick("w", r.choice(["int", "int", "int", "str"]), env, fr, pmodes, in_callee, ctx)
             if not p:
                 return None
             return {"k": "w", "a": p[0], "z": self.val(), "sty": p[1], "sigs": [p[2]]}
         if kind == "cp":
-            ty = r.choice(["P", "P", "In", "A3"])
+            ty = r.choice(["P", "P", "In", "A3", "Q", "Q"])
             d = self.pick("cpd", ty, env, fr, pmodes, in_callee, ctx)
             if not d:
                 return None
@@ -432,7 +443,7 @@ class Gen:
                 return None
             return {"k": "cp", "d": d[0], "s": s[0], "ty": ty, "sty": d[1], "sty2": s[1], "sigs": [d[2], s[2]]}
         if kind == "addr":
-            ty = r.choice(["P", "In", "int"])
+            ty = r.choice(["P", "In", "int", "Q"])
             p = self.pick("addrp", "*" + ty, env, fr, pmodes, in_callee, ctx, pred=lambda a: a[0] == "v")
             if not p:
                 return None
@@ -446,7 +457,7 @@ class Gen:
             n = r.randint(1, 5)
             es, sigs, stys = [], [], []
             for _ in range(n):
-                p = self.pick("r-" + form, "int", env, fr, pmodes, in_callee, ctx)
+                p = self.pick("r-" + form, r.choice(["int", "int", "int", "str"]), env, fr, pmodes, in_callee, ctx)
                 if p:
                     es.append(p[0]); stys.append(p[1]); sigs.append(p[2])
             if not es:
@@ -490,7 +501,7 @@ class Gen:
         is_method = r.random() < 0.45
         if is_method:
             # interface methods with T& / T* / struct parameters are rejected by the front end: self + int parameters
-            ty = r.choice(["P", "In", "In", "In"])
+            ty = r.choice(["P", "In", "In", "In", "Q", "Q"])
             pred = None
             if r.random() < 0.5:                 # aim at receivers reached through a pointer
                 pred = lambda a: a[0] == "d"
@@ -500,26 +511,26 @@ class Gen:
                 return None
             params.append({"mode": "self", "ty": ty, "arg": p[0], "sty": p[1], "sig": p[2]})
             fr_types.append(ty); pmodes.append("self")
-            modes = ["int"] * r.choice([0, 0, 1, 1, 2])
+            modes = [r.choice(["int", "int", "str"]) for _ in range(r.choice([0, 0, 1, 1, 2]))]
         else:
-            modes = [r.choice(["val", "ref", "ptr", "pval", "arr", "val", "ref", "ptr", "int"])
+            modes = [r.choice(["val", "ref", "ptr", "pval", "arr", "val", "ref", "ptr", "int", "str"])
                      for _ in range(r.choice([1, 1, 1, 2, 2, 3]))]
         for mode in modes:
-            if mode == "int":
-                ty = "int"
-                p = self.pick("argint", "int", envc, frc, pmc, in_c, ctxc)
+            if mode in ("int", "str"):
+                ty = mode
+                p = self.pick("arg" + mode, ty, envc, frc, pmc, in_c, ctxc)
                 mode = "val"
             elif mode == "pval":
-                ty = r.choice(["P", "P", "In", "In", "int"])
+                ty = r.choice(["P", "P", "In", "In", "int", "Q", "Q"])
                 p = self.pick("argpval", "*" + ty, envc, frc, pmc, in_c, ctxc,
                               pred=lambda a: isinstance(self.sh.read(self.sh.resolve(a, frc)), tuple))
             else:
                 if mode == "arr":
                     ty = r.choice(["A3", "A3", "PS", "ES"])
                 elif mode in ("ptr", "ref"):
-                    ty = r.choice(["P", "P", "In", "In", "int"])
+                    ty = r.choice(["P", "P", "In", "In", "int", "Q", "Q"])
                 else:
-                    ty = r.choice(["P", "P", "In", "In"])
+                    ty = r.choice(["P", "P", "In", "In", "Q"])
                 p = self.pick("arg" + mode, ty, envc, frc, pmc, in_c, ctxc)
             if not p:
                 return None
@@ -558,7 +569,7 @@ class Gen:
                     loc = len(self.sh.h) - 1
                     nc["ret"]["loc"] = loc
                     self.locals[loc] = self.tyall[loc] = nc["ret"]["ty"]
-                    if nc["ret"]["ty"] == "int":
+                    if nc["ret"]["ty"] in SCALARS:
                         self.next_id += 1
                         st = {"arrow": True, "ivar": False}
                         body.append({"k": "rd", "id": self.next_id, "as": [("v", loc)], "form": "plain", "stys": [st],
@@ -573,8 +584,8 @@ class Gen:
                 body.append(s)
         ret = None
         if r.random() < 0.45:
-            ty = r.choice(["P", "In", "In", "int", "int", "int"])
-            role = "reti" if ty == "int" else "ret"
+            ty = r.choice(["P", "In", "In", "int", "int", "int", "Q", "str"])
+            role = "reti" if ty in SCALARS else "ret"
             e = self.pick(role, ty, env, fr, pmodes, True, ctx)
             if e:
                 ncopies = sum(1 for l in self.vt if l >= NV) + len(saved_locals)
@@ -630,7 +641,7 @@ class Gen:
         elif k == "decl":
             if sum(1 for l in self.vt if l >= NV) >= self.maxcopies:
                 return False
-            ty = r.choice(["P", "P", "In"])
+            ty = r.choice(["P", "P", "In", "Q"])
             p = self.pick("decl", ty, env, [], None, False, "M")
             o = {"k": "decl", "s": p[0], "ty": ty, "sty": p[1], "sigs": [p[2]]} if p else None
         else:
@@ -647,7 +658,7 @@ class Gen:
         """one rd op per form (plain / interpolation / temporary) reading ONE cell through every available
         access path that denotes it (name, member path, element, dereference / arrow of every pointer to it)"""
         env = TypeEnv(self.tyall)
-        cands = self.exprs_of("int", env, [], False)
+        cands = [a for t in SCALARS for a in self.exprs_of(t, env, [], False)]
         if cell is None:
             if not cands:
                 return 0
@@ -731,7 +742,7 @@ class Gen:
 def r_sop(s, env, pnames, ind):
     k = s["k"]
     if k == "w":
-        return ["%s%s = %d;" % (ind, render(s["a"], env, s["sty"], pnames), s["z"])]
+        return ["%s%s = %s;" % (ind, render(s["a"], env, s["sty"], pnames), lit(env.typeof(s["a"]), s["z"]))]
     if k == "cp":
         return ["%s%s = %s;" % (ind, render(s["d"], env, s["sty"], pnames), render(s["s"], env, s.get("sty2", s["sty"]), pnames))]
     if k == "addr":
@@ -744,7 +755,7 @@ def r_sop(s, env, pnames, ind):
             return ['%sprintln("%d %s");' % (ind, s["id"], " ".join("{%s}" % e for e in es))]
         out = []
         for j, e in enumerate(es):
-            out.append("%sint t%d_%d = %s;" % (ind, s["id"], j, e))
+            out.append("%s%s t%d_%d = %s;" % (ind, cb_type(env.typeof(s["as"][j])), s["id"], j, e))
         out.append("%sprintln(%d, %s);" % (ind, s["id"], ", ".join("t%d_%d" % (s["id"], j) for j in range(len(es)))))
         return out
     raise ValueError(k)
@@ -774,7 +785,7 @@ def to_cb(case):
     ops = case["ops"]
     vt = type_map(ops)
     env0 = TypeEnv(vt)
-    funcs, methods = [], {"P": [], "In": []}
+    funcs, methods = [], {"P": [], "In": [], "Q": []}
 
     def r_call(o, envc, pnc, ind, depth=0):
         """text of the call statement; the callee's definition is registered in funcs / methods (its own callees first).
@@ -808,7 +819,7 @@ def to_cb(case):
         ret = o["ret"]
         rty = "void"
         if ret:
-            rty = ret["ty"]
+            rty = cb_type(ret["ty"])
             body.append("  return %s;" % render(ret["e"], env, ret["sty"], pn))
         elif o.get("exit") == "ret":
             body.append("  return;")
@@ -829,7 +840,7 @@ def to_cb(case):
         if not ret:
             return ["%s%s;" % (ind, ce)]
         if ret["d"] is None:
-            return ["%s%s c%d = %s;" % (ind, ret["ty"], ret["loc"], ce)]
+            return ["%s%s c%d = %s;" % (ind, cb_type(ret["ty"]), ret["loc"], ce)]
         return ["%s%s = %s;" % (ind, render(ret["d"], envc, ret.get("sty2", {}), pnc), ce)]
 
     main = []
@@ -843,8 +854,9 @@ def to_cb(case):
             main.append("  %s c%d = %s;" % (o["ty"], o["loc"], render(o["s"], env0, o["sty"])))
         elif k == "call":
             main += r_call(o, env0, None, "  ")
-    out = ["struct In { int v; int w; };", "struct P { int s; In inner; int[3] arr; };"]
-    for ty in ("In", "P"):
+    out = ["struct In { int v; int w; };", "struct P { int s; In inner; int[3] arr; };",
+           "struct Q { int n; string t; double d; };"]
+    for ty in ("In", "P", "Q"):
         if methods[ty]:
             out.append("interface M%s {" % ty)
             out += ["  %s;" % sig for sig, _ in methods[ty]]
@@ -870,6 +882,15 @@ def to_cb(case):
         out += funcs
         out.append("void main() {")
         out += ["  " + d for d in decls]
+    # an unassigned string member prints as the empty string: the zero of the model is the text "0"
+    for n, t in (VARS if case.get("strings") else []):
+        for pth in leaves(t):
+            a, ty = n, t
+            for kk in pth:
+                lab, ty = children(ty)[kk]
+                a += ("[%d]" % lab) if isinstance(lab, int) else ("." + lab)
+            if ty == "str":
+                out.append('  %s = "0";' % a)
     out += main
     out.append("}")
     return "\n".join(out) + "\n"
@@ -882,7 +903,7 @@ def parse_transcript(stdout):
         if not l:
             continue
         try:
-            out.append([int(x) for x in l.split()])
+            out.append([int(float(x)) if re.match(r"^-?\d+\.\d+$", x) else int(x) for x in l.split()])
         except ValueError:
             out.append(["?", l[:80]])
     return out
@@ -1130,7 +1151,7 @@ AVOID = [
     ("C07-structarray-elem-array-member-rejected", r"\|PS\[\]\.arr"),
     ("C07-structarray-param", r"\|argarr\|(PS|ES)|par<arr (PS|ES)>"),
     # --- pointers
-    ("C07-pointer-to-member", r"\|(addr|argptr)\|(?!(P|In|int|A3\[\])\|)"),
+    ("C07-pointer-to-member", r"\|(addr|argptr)\|(?!(P|In|Q|int|A3\[\])\|)"),
     ("C07-arrow-array-member-rejected", r"\*\([^)]*\)\.arr\[\]"),
     ("C07-arrow-nested-write-rejected", r"\|(w|retdi)\|\*\([^)]*\)\.inner\."),
     ("C07-deref-whole-struct", r"\|(decl|cp[ds]|argval|retd?)\|\*\("),
@@ -1152,11 +1173,14 @@ AVOID = [
     ("restriction-assign-to-self", r"\|(retd|cpd)\|par<self [^|.]*\|"),
     ("C07-self-call-return-exit-write-lost", r"\|recv\|par<self [^|]*\|.*R"),
     ("C07-array-element-dest-call-evaluated-twice", r"\|retdi\|.*\[\]"),
-    ("C07-self-writethrough-stale", r"^[ST].\|[^|]*\|(In|P|PS|ES)|^[ST].\|[^|]*\|\*\("),
+    ("C07-self-writethrough-stale", r"^[ST].\|[^|]*\|(In|P|Q|PS|ES)|^[ST].\|[^|]*\|\*\("),
+    # --- members of floating type
+    ("C07-double-member", r"\.d\|"),
     # --- documented / front-end restrictions (not defects): T& and T[n] arguments must be plain variables,
     #     a member expression cannot be passed to a struct parameter
     ("restriction-ref-arg-plain-variable", r"\|argref\|.*[.\[*]"),
     ("restriction-array-arg-plain-variable", r"\|argarr\|.*[.\[*]"),
+    ("restriction-string-arg-plain-variable", r"\|argstr\|.*[.\[*]"),
 ]
 _AVOID_RE = [(fid, re.compile(rx)) for fid, rx in AVOID]
 
@@ -1168,8 +1192,23 @@ def avoid_id(sig):
     return None
 
 
+# Strings: after ANY evaluation of a string-typed expression, a later read of a non-string cell through a pointer
+# (p->v, ( *p).v) returns that string (stale last_typed_result, evaluator/access/special.cpp) - recorded as
+# C07-arrow-read-after-string-stale.  The state is global and survives statements, so a history is either
+# string-free (no access to the string member Q.t at all: allow_main) or string-enabled (Q.t in play, but no READ of a
+# non-string cell through a pointer: allow_str).
+_STR_EXPR = re.compile(r"\.t\|[^|]*$")
+_PTR_READ = re.compile(r"\|(r-[a-z]+|reti|argint|argstr)\|[^|]*\*\(")
+
+
 def allow_main(sig):
-    return avoid_id(sig) is None
+    return avoid_id(sig) is None and not _STR_EXPR.search(sig)
+
+
+def allow_str(sig):
+    if avoid_id(sig) is not None:
+        return False
+    return not (_PTR_READ.search(sig) and not _STR_EXPR.search(sig))
 
 
 # ------------------------------------------------------------------ hand-written cases (known findings, corpus)
@@ -1259,7 +1298,7 @@ class Build:
         ps, pt, pm, pn = [], [], [], []
         for i, (mode, ty, arg) in enumerate(params):
             a = self.path(arg)
-            role = {"self": "recv", "pval": "argpval"}.get(mode, "argint" if ty == "int" and mode == "val" else "arg" + mode)
+            role = {"self": "recv", "pval": "argpval"}.get(mode, "arg" + ty if ty in SCALARS and mode == "val" else "arg" + mode)
             ps.append({"mode": mode, "ty": ty, "arg": a, "sty": self.sty, "sig": self._sig(ctxc, role, a, frc, pmc)})
             pt.append(("*" + ty) if mode in ("ptr", "pval") else ty)
             pm.append(mode)
@@ -1296,7 +1335,7 @@ class Build:
             call["sigs"] = [prm["sig"] for prm in ps] + call["sigs"][len(ps):]
         if ret:
             e = self.path(ret[0])
-            role = "reti" if ret[2] == "int" else "ret"
+            role = "reti" if ret[2] in SCALARS else "ret"
             r = {"e": e, "d": None, "ty": ret[2], "sty": self.sty, "sigs": [self._sig(ctx, role, e, fr, pm)]}
             self._pt, self._pn = outer_pt, outer_pn
             g.sh = saved
@@ -1355,10 +1394,11 @@ META = {
 }
 
 
-def gen_history(seed, k, n, tier):
+def gen_history(seed, k, n, tier, strings=None):
     rng = rng_for(seed, "c07-hist", tier, k)
     place = "global" if rng.random() < 0.5 else "local"
-    g = Gen(rng, allow_main, place)
+    allow = allow_str if (k % 4 == 3 if strings is None else strings) else allow_main      # every 4th history: string-enabled
+    g = Gen(rng, allow, place)
     # a prefix of plain member-wise initialisation (random subset, so that default-zero cells stay in play)
     env = TypeEnv(g.tyall)
     for loc, (_, t) in enumerate(VARS):
@@ -1366,19 +1406,20 @@ def gen_history(seed, k, n, tier):
             continue
         for p in leaves(t):
             # struct arrays are always initialised member-wise first (known findings C07-uninit-structarray-*)
-            if t in ("PS", "ES") or rng.random() < 0.7:
+            # (string members too: an unassigned string prints as the empty string, not as a number)
+            if t in ("PS", "ES", "Q") or rng.random() < 0.7:
                 a = ("v", loc)
                 for i in p:
                     a = ("f", a, i)
                 st = {"arrow": True, "ivar": False}
                 sg = g.sig("M", "w", a, env, [], None, st)
-                if allow_main(sg):
+                if allow(sg):
                     g.emit({"k": "w", "a": a, "z": g.val(), "sty": st, "sigs": [sg]})
     n0 = len(g.ops)
     g.history(n0 + n)
     for o in g.read_all(("plain", "plain", "interp")):
         g.emit(o)
-    return {"place": place, "ops": g.ops, "origin": "random", "k": k}, g
+    return {"place": place, "ops": g.ops, "origin": "random", "k": k, "strings": allow is allow_str}, g
 
 
 def _gen_job(args):
@@ -1388,23 +1429,63 @@ def _gen_job(args):
 
 
 def gen_conflict(seed, k):
-    """an array parameter whose argument is also written/read by its global name inside the callee
-    (Spec != Mech: the *_refuted theorems); the implementation must follow Mech"""
+    """the callee reaches a copy-in argument also by its global name (Spec != Mech: the *_refuted theorems); the
+    implementation must follow Mech.  k % 3 == 0: an array parameter (as before); otherwise the receiver of a
+    method - invoked by name, through p-> or through ( *p). - whose body writes/reads members both through self and
+    through the receiver's global name, leaving by falling off the end, by `return;` or by `return e;`
+    (the three self write-back blocks of call_impl.cpp, one per exit path)"""
     rng = rng_for(seed, "c07-conflict", k)
     b = Build("global")
-    arr = rng.choice(["g", "h"])
-    for i in range(3):
-        b.op("w", "%s[%d]" % (arr, i), b.g.val())
-    body = []
-    for _ in range(rng.randint(2, 5)):
-        r = rng.random()
-        root = rng.choice(["q0", arr])
-        if r < 0.6:
-            body.append(("w", "%s[%d]" % (root, rng.randint(0, 2)), b.g.val()))
+    if k % 3 == 0:
+        arr = rng.choice(["g", "h"])
+        for i in range(3):
+            b.op("w", "%s[%d]" % (arr, i), b.g.val())
+        body = []
+        for _ in range(rng.randint(2, 5)):
+            r = rng.random()
+            root = rng.choice(["q0", arr])
+            if r < 0.6:
+                body.append(("w", "%s[%d]" % (root, rng.randint(0, 2)), b.g.val()))
+            else:
+                body.append(("rd", ["q0[%d]" % rng.randint(0, 2), "%s[%d]" % (arr, rng.randint(0, 2))]))
+        ex = rng.choice(["fall", "ret", "val"])
+        if ex == "val":
+            b.call([("arr", "A3", arr)], body, ("q0[%d]" % rng.randint(0, 2), "n", "int"))
         else:
-            body.append(("rd", ["q0[%d]" % rng.randint(0, 2), "%s[%d]" % (arr, rng.randint(0, 2))]))
-    b.call([("arr", "A3", arr)], body)
-    b.op("rd", ["%s[0]" % arr, "%s[1]" % arr, "%s[2]" % arr])
+            b.call([("arr", "A3", arr)], body, None, ex)
+        b.op("rd", ["%s[0]" % arr, "%s[1]" % arr, "%s[2]" % arr, "n"])
+    else:
+        recv = rng.choice(["e", "f"])
+        for mname in ("v", "w"):
+            b.op("w", "%s.%s" % (recv, mname), b.g.val())
+        form = rng.choice(["name", "arrow", "star"])
+        if form != "name":
+            b.op("addr", "pin", recv)
+        b.sty = {"arrow": form != "star", "ivar": False}
+        body = []
+        for _ in range(rng.randint(2, 5)):
+            r = rng.random()
+            root = rng.choice(["self", recv])
+            if r < 0.6:
+                body.append(("w", "%s.%s" % (root, rng.choice("vw")), b.g.val()))
+            elif form == "name":
+                body.append(("rd", ["self.%s" % rng.choice("vw"), "%s.%s" % (recv, rng.choice("vw"))]))
+            else:
+                # a receiver reached through a pointer is copied in and back but NOT written through
+                # (statement_executor.cpp:720 needs the receiver's name): the model's Mech differs from the code on
+                # by-name READS inside such a method only (recorded: C07-ptr-receiver-no-writethrough); writes by
+                # name and everything through self behave as modelled
+                body.append(("rd", ["self.v", "self.w"]))
+        ex = rng.choice(["fall", "ret", "val"])
+        rpath = recv if form == "name" else "*pin"
+        if ex == "val":
+            b.call([("self", "In", rpath)], body, ("self.%s" % rng.choice("vw"), "n", "int"))
+        else:
+            b.call([("self", "In", rpath)], body, None, ex)
+        rd = ["%s.v" % recv, "%s.w" % recv, "n"]
+        if form != "name":
+            rd += ["pin->v", "pin->w"]
+        b.op("rd", rd)
     c = b.case()
     c["origin"] = "conflict"
     c["k"] = k
@@ -1428,8 +1509,9 @@ def nontrivial(case):
 
 def strip(case):
     out = {"place": case["place"], "ops": case["ops"]}
-    if case.get("same_names"):
-        out["same_names"] = True
+    for flag in ("same_names", "strings"):
+        if case.get(flag):
+            out[flag] = True
     return out
 
 
@@ -1604,8 +1686,9 @@ def load_case(c):
             o["ret"] = None
         return o
     out = {"place": c.get("place", "local"), "ops": []}
-    if c.get("same_names"):
-        out["same_names"] = True
+    for flag in ("same_names", "strings"):
+        if c.get(flag):
+            out[flag] = True
     for o in c["ops"]:
         out["ops"].append(fix_call(o) if o["k"] == "call" else fix_sop(o))
     return out
